@@ -333,6 +333,8 @@ def _deep_equal(a, b):
         return a.keys() == b.keys() and all(_deep_equal(a[k], b[k]) for k in a)
     if isinstance(a, (float, np.floating)) or isinstance(b, (float, np.floating)):
         return _eqf(a, b)
+    if hasattr(a, "__dict__") and hasattr(b, "__dict__") and type(a) is type(b) and not isinstance(a, type):
+        return _deep_equal(vars(a), vars(b))
     try:
         return bool(a == b)
     except Exception:
@@ -361,7 +363,7 @@ def c15_trend(desc, rec, r):
     seen = set()
 
     def report(util, msg):
-        cls = [opt, "trend", util, mm]
+        cls = ["trend", util, mm]
         if tuple(cls) not in seen:
             seen.add(tuple(cls))
             out.append({"cls": cls, "msg": msg})
@@ -445,12 +447,25 @@ def c11_pool(desc, rec):
         if not g["ok"] and mode != "serial":
             add("greedy_mismatch", f"pooled greedy selection differs from the serial outcome as a multiset "
                                    f"({g['n_old']} incumbents, {g['n_new']} challengers, {g['n_out']} installed)")
-    if rec.result is not None and desc["task"].get("family") in ("cont_multi", "cont_mixed", "multi_objective") \
+    if rec.result is not None and rec.base_init and desc["task"].get("family") in CONT_FAMILIES \
             and not any(f["kind"].startswith("stream_") for f in desc.get("faults") or []):
         pos = [tuple(a.position) for a in rec.result.evolution[0].agents]
         if len(set(pos)) < len(pos):
             add("duplicate_initial_points", f"initial population: {len(set(pos))} distinct points out of {len(pos)} "
                                             f"(workers={desc.get('workers')})")
+    # workers of one process pool must not replay one another's random stream
+    pools = {}
+    for pid_, parent, label, first in rec.ctx_firsts or []:
+        if parent is None or not first or not label.startswith("pool"):
+            continue
+        name, _, val = first[0].partition(":")
+        if name in ("uniform", "random", "random_sample", "rand", "normal", "standard_normal") and "0x" in val:
+            pools.setdefault(label.split("w")[0], []).append(first[0])
+    for pl, firsts in pools.items():
+        if len(set(firsts)) < len(firsts):
+            add("replayed_stream", f"{len(firsts)} worker processes of one pool drew, {len(set(firsts))} distinct "
+                                   f"first values: workers replay one another's random stream")
+            break
     if rec.deadlock:
         add("deadlock", "the pooled run deadlocked")
     return out
